@@ -105,9 +105,6 @@ fn roundtrip(rep: &mut Report, v: &Value) {
     for u in ["s", "ms", "us", "ns"] {
         let tu = tri(&v["trunc"][u]).unwrap();
         let Some(x) = enc(tu, u) else { continue };
-        if tu.0.abs() > 2_900_000 {
-            continue; // four-digit years only: the default formats do not carry a sign
-        }
         let key = format!("strftime/parse|{u}|t={t:?}");
         rep.cells += 1;
         let r = catch(|| -> Result<(), String> {
@@ -126,7 +123,11 @@ fn roundtrip(rep: &mut Report, v: &Value) {
                 }
                 // listed formats that keep the needed resolution
                 if tu.2 == 0 {
+                    // a year outside 0..=9999 is written with a sign and as many digits as it needs: in a format
+                    // that does not delimit the year the text is ambiguous in the calendar library's own grammar
+                    let four_digit = f[0] >= 0 && f[0] <= 9999;
                     for fmt in ["%Y-%m-%d %H:%M:%S", "%Y/%m/%d %H:%M:%S", "%Y%m%d %H%M%S", "%Y%m%d%H%M%S"] {
+                        if !four_digit && !fmt.contains("%Y-") && !fmt.contains("%Y/") { continue; }
                         let s2 = dt.strftime(Some(fmt));
                         let b = DateTime::<U>::parse(&s2, None).map_err(|e| format!("{s2:?} ({fmt}) does not parse back: {e}"))?;
                         if b != dt { return Err(format!("{s2:?} ({fmt}) parses back to another instant")); }
@@ -135,6 +136,7 @@ fn roundtrip(rep: &mut Report, v: &Value) {
                     }
                     if tu.1 == 0 {
                         for fmt in ["%Y-%m-%d", "%Y%m%d", "%d/%m/%Y", "%Y/%m/%d"] {
+                            if !four_digit && fmt == "%Y%m%d" { continue; }
                             let s2 = dt.strftime(Some(fmt));
                             let b = DateTime::<U>::parse(&s2, None).map_err(|e| format!("{s2:?} ({fmt}) does not parse back: {e}"))?;
                             if b != dt { return Err(format!("{s2:?} ({fmt}) parses back to another instant")); }
